@@ -35,14 +35,27 @@ def e_insert(rng, text, lang, protect_top=0):
     inserts = sorted(set(inserts))
     out, shift_at = [], []
     k = 0
+    in_block = False  # inside a multi-line /* */ comment of the base file: nothing is inserted there (TS/JS block comments do not nest)
     for i, ln in enumerate(lines, 1):
         while k < len(inserts) and inserts[k] == i:
+            if in_block:
+                k += 1
+                continue
             kind = rng.random()
             ind = re.match(r"\s*", ln).group(0)
-            out.append("" if kind < 0.25 else ind if kind < 0.4 else "%s%s note %d" % (ind, CM[lang], rng.randint(100, 999)))
+            if kind >= 0.4 and lang != "py" and rng.random() < 0.3:
+                out.append("%s/* note %d */" % (ind, rng.randint(100, 999)))  # a one-line block comment is a comment line too
+            else:
+                out.append("" if kind < 0.25 else ind if kind < 0.4 else "%s%s note %d" % (ind, CM[lang], rng.randint(100, 999)))
             shift_at.append(i)
             k += 1
         out.append(ln)
+        if lang != "py":
+            opened = ln.rfind("/*")
+            if opened >= 0 and ln.find("*/", opened + 2) < 0:
+                in_block = True
+            elif in_block and "*/" in ln:
+                in_block = False
     return "\n".join(out), (lambda l, s=tuple(shift_at): l + sum(1 for x in s if x <= l)), {"columns": True}
 
 
